@@ -51,7 +51,7 @@ class Engine:
         "generated projects have project-unique explicit labels, equation labels and names; include files carry "
         "none (Sphinx resolves duplicates by read/merge order - upstream behaviour, DESIGN §5.6)",
         "warning order is not compared (it legitimately follows completion order); the multiset of lines is",
-        "amsmath labels come from the simulator-owned label source (_random_label seam)",
+        "amsmath labels come from the simulator-owned label source (uuid4 beneath _random_label, which stays real code)",
     ]
     real_vs_stub = {
         "real": ["all of myst_parser", "Sphinx application, environment, builders (xml/html), domains, pickling, "
